@@ -292,6 +292,8 @@ class DtypeDefinition:
         if not self.variable_length:
             if self.allowed_lengths.only_one_value():
                 def read_fn(bs, start):
+                    if len(bs) < start + self.allowed_lengths.values[0]:
+                        raise bitstring.ReadError(f"Needed a length of at least {self.allowed_lengths.values[0]} bits, but only {len(bs) - start} bits were available.")
                     return self.get_fn(bs[start:start + self.allowed_lengths.values[0]])
             else:
                 def read_fn(bs, start, length):
